@@ -40,6 +40,7 @@ def run(repo, chk):
     rule_d_e(repo, chk)
     rule_tables(repo, chk)
     rule_k_l(repo, chk)
+    rule_m(repo, chk)
 
 
 def _m(cls, name):
@@ -580,3 +581,23 @@ def _failure_via_exception(cls, chk):
         if ok:
             return True
     return False
+
+
+def rule_m(repo, chk):
+    chk.rule('C19.m', 'the carry of the receive buffer does not outlive its connection: the client keeps one Protocol for all its connections, so the '
+                      'protocol handles `disconnected` and empties the buffer on every path (the server builds a protocol per connection)')
+    cls = repo.cls(NODE_PROTOCOL, 'Protocol')
+    cl = repo.cls('circuits/node/client.py', 'Client')
+    per_conn = any(isinstance(c, ast.Call) and call_name(c) == 'Protocol' for m in cl.methods.values() if m.handler is not None and {'connected', 'connect', 'ready'} & set(m.handler.names)
+                   for c in calls_in(m.node))
+    hs = [m for m in cls.methods.values() if m.handler is not None and 'disconnected' in m.handler.names]
+    ok = per_conn
+    where = NODE_PROTOCOL
+    for h in hs:
+        chk.touch(h)
+        g = h.cfg()
+        clr = [n for n in g.nodes if n.kind == 'stmt' and any(r == 'self' and a == '__buffer' and src(v) in ("b''", 'b""', 'bytes()') for r, a, v in pat.attr_store(n.ast))]
+        if clr and Q.escapes(g, [g.entry], lambda n: n in clr, exits=('exit',)) is None:
+            ok = True
+        where = loc(h, h.node)
+    chk.ob('m', cls.ref, 'an unfinished packet is dropped together with the connection it arrived on', ok, where, discr='carry-reset-on-disconnect')
